@@ -25,7 +25,7 @@ func runC18(w *World, r *Report, tier string) {
 
 	ka := w.Func("xmpp.keepalive")
 	// R1
-	tick := w.callsIn(ka, "time.NewTicker")
+	tick := w.callsInH(ka, "time.NewTicker")
 	okT := len(tick) == 1
 	if okT {
 		p, isP := tick[0].Common().Args[0].(*ssa.Parameter)
@@ -185,7 +185,7 @@ func runC18(w *World, r *Report, tier string) {
 	// R5
 	for _, k := range []string{"xmpp.(*Client).Connect", "xmpp.(*Client).Resume"} {
 		f := w.Func(k)
-		conn := w.callsIn(f, "xmpp.Client.connect")
+		conn := w.callsInH(f, "xmpp.Client.connect")
 		if len(conn) != 1 {
 			r.Undecided("R5", k, w.pos(f.Pos()), "expected exactly one connect() call")
 			continue
